@@ -32,7 +32,18 @@ type jaValue struct {
 	devAddr    uint32
 	dlSettings byte
 	rxDelay    byte
-	cfKind     int // 0 absent, 1 channels, 2 masks
+	cfKind     int // 0 absent, 1 channels, 2 masks, 3 channels all unused (16 zero bytes), 4 channels with one slot used
+}
+
+// channels are the five frequencies of a channel-frequency CFList of this kind.
+func (j jaValue) channels() [5]uint32 {
+	switch j.cfKind {
+	case 3:
+		return [5]uint32{}
+	case 4:
+		return [5]uint32{0, 0, c04CFChannels[2], 0, 0}
+	}
+	return c04CFChannels
 }
 
 var c04CFChannels = [5]uint32{867100000, 867300000, 867500000, 867700000, 867900000}
@@ -42,8 +53,8 @@ func (j jaValue) wire() []byte {
 	b := []byte{byte(j.joinNonce), byte(j.joinNonce >> 8), byte(j.joinNonce >> 16), j.netID[2], j.netID[1], j.netID[0],
 		byte(j.devAddr), byte(j.devAddr >> 8), byte(j.devAddr >> 16), byte(j.devAddr >> 24), j.dlSettings, j.rxDelay}
 	switch j.cfKind {
-	case 1:
-		for _, f := range c04CFChannels {
+	case 1, 3, 4:
+		for _, f := range j.channels() {
 			v := f / 100
 			b = append(b, byte(v), byte(v>>8), byte(v>>16))
 		}
@@ -68,8 +79,8 @@ func (j jaValue) lib() *lorawan.JoinAcceptPayload {
 		RXDelay:    j.rxDelay,
 	}
 	switch j.cfKind {
-	case 1:
-		p.CFList = &lorawan.CFList{CFListType: lorawan.CFListChannel, Payload: &lorawan.CFListChannelPayload{Channels: c04CFChannels}}
+	case 1, 3, 4:
+		p.CFList = &lorawan.CFList{CFListType: lorawan.CFListChannel, Payload: &lorawan.CFListChannelPayload{Channels: j.channels()}}
 	case 2:
 		var ms []lorawan.ChMask
 		for _, m := range c04CFMasks {
@@ -189,6 +200,38 @@ func c04JoinAccept(c *engine.Case, class string, j jaValue, jt byte, joinEUI [8]
 	}
 	if ok, err := q.ValidateDownlinkJoinMIC(lorawan.JoinType(jt), lorawan.EUI64(joinEUI), lorawan.DevNonce(devNonce), keyOf(key)); err != nil || !ok {
 		c.Fail(class+"/validate-after-decrypt", fmt.Sprintf("Validate=%v err=%v after decrypt; %s", ok, err, desc()), nil)
+	}
+	// a received join-accept is a value like any other: after changing a field of the decoded
+	// payload in place, the MIC is the specification MIC of the *changed* payload (nothing
+	// remembered from the reception may stand in for it)
+	if ja, ok := q.MACPayload.(*lorawan.JoinAcceptPayload); ok {
+		for e := 0; e < 2; e++ {
+			j2 := j
+			if e == 0 {
+				j2.joinNonce ^= 1
+				ja.JoinNonce ^= 1
+			} else {
+				j2.rxDelay ^= 1
+				ja.RXDelay ^= 1
+			}
+			p2 := j2.wire()
+			want2 := spec.JoinMIC(key, mhdr, p2)
+			if optNeg {
+				want2 = spec.JoinAcceptMIC11(key, jt, joinEUI, devNonce, mhdr, p2)
+			}
+			q.MIC = lorawan.MIC(want)
+			if ok, err := q.ValidateDownlinkJoinMIC(lorawan.JoinType(jt), lorawan.EUI64(joinEUI), lorawan.DevNonce(devNonce), keyOf(key)); err != nil || ok != (want2 == want) {
+				c.Fail(class+"/edited-after-decrypt/validate", fmt.Sprintf("decoded, decrypted, payload changed in place to %x: Validate=%v err=%v with the MIC %x of the received payload (specification MIC of the changed payload %x); %s", p2, ok, err, want[:], want2[:], desc()), nil)
+			}
+			if err := q.SetDownlinkJoinMIC(lorawan.JoinType(jt), lorawan.EUI64(joinEUI), lorawan.DevNonce(devNonce), keyOf(key)); err != nil || [4]byte(q.MIC) != want2 {
+				c.Fail(class+"/edited-after-decrypt/set", fmt.Sprintf("decoded, decrypted, payload changed in place to %x: Set gives %x (err %v), specification %x; %s", p2, q.MIC[:], err, want2[:], desc()), nil)
+			}
+			if e == 0 {
+				ja.JoinNonce ^= 1
+			} else {
+				ja.RXDelay ^= 1
+			}
+		}
 	}
 	// the same through the in-place pair without serialisation
 	if err := p.DecryptJoinAcceptPayload(keyOf(key)); err != nil || [4]byte(p.MIC) != want || deepPrint(p.MACPayload) != deepPrint(lorawan.Payload(j.lib())) {
@@ -315,7 +358,7 @@ func runC04(r *engine.Run) {
 	})
 
 	// ---- join-accept A: header-ish fields complete
-	spA := (&engine.Space{}).Dim("dlsettings", 256).Dim("rxdelay", 16).Dim("cflist", 3).Dim("joinReqType", 4).Dim("key", 3)
+	spA := (&engine.Space{}).Dim("dlsettings", 256).Dim("rxdelay", 16).Dim("cflist{absent,channels,masks,all-unused channels,one channel}", 5).Dim("joinReqType", 4).Dim("key", 3)
 	r.PartDims("joinaccept/A-dlsettings-rxdelay-cflist", spA.Desc(), spA.N(), func(c *engine.Case) {
 		var ch [5]int
 		spA.Decode(c.Index, ch[:])
